@@ -68,6 +68,19 @@ def install_registries(E):
 
 
 SCENARIOS = {
+    "constructed-not-entered": """
+def prog(pre):
+    c = Calibration(streamline=S)
+    return "done"
+""",
+    "constructed-earlier-entered-later": """
+def prog(pre):
+    c = Calibration(streamline=S)
+    d = Calibration(momentum=0.5, streamline=S)
+    with c:
+        pass
+    return "done"
+""",
     "normal": """
 def prog(pre):
     with Calibration(streamline=S):
@@ -306,9 +319,11 @@ def frames(run):
         for weights in ("qint8", "qint4", "qfloat8_e4m3fn"):
             for act in (None, "qint8"):
                 for frozen in (False, True):
-                    for inp in ("float", "quantized"):
+                    for inp in ("float", "quantized", "float16"):
                         if kind == "layernorm" and (act is None or weights != "qint8"):
                             continue
+                        if inp == "float16" and (act is None or kind != "linear" or weights != "qint8"):
+                            continue   # an input of another float dtype than the module (mixed precision): activation-quantized Linear
                         if run.tier == "quick" and kind != "linear" and (weights == "qfloat8_e4m3fn" or inp == "quantized"):
                             continue
                         if inp == "quantized" and act is None:
@@ -336,8 +351,8 @@ def frames(run):
                             if frozen:
                                 E2.call(E2.getattr(mod, "freeze"), [], {})
                             freeze_inputs(mod)
-                            if inp == "float":
-                                x = new_input(E2, "X", "float32", xs)
+                            if inp in ("float", "float16"):
+                                x = new_input(E2, "X", "float32" if inp == "float" else "float16", xs)
                             else:
                                 h = OC.H(E2, act, None)
                                 x = h.q(xs, name="X")
@@ -461,7 +476,14 @@ def replay_scoping(model, seed, inst):
     lin = torch.nn.Linear(2, 2)
     try:
         try:
-            if inst["scenario"] in ("exception", "sequential"):
+            if inst["scenario"] == "constructed-not-entered":
+                c = Calibration(streamline=S)
+            elif inst["scenario"] == "constructed-earlier-entered-later":
+                c = Calibration(streamline=S)
+                d = Calibration(momentum=0.5, streamline=S)
+                with c:
+                    lin(torch.randn(1, 2))
+            elif inst["scenario"] in ("exception", "sequential"):
                 with Calibration(streamline=S):
                     raise RuntimeError("x")
             elif inst["scenario"].startswith("nested"):
@@ -518,6 +540,9 @@ def replay_frames(model, seed, inst):
         m, x = QConv2d(4, 2, 1, **kw), torch.randn(1, 4, 2, 2)
     else:
         m, x = QLayerNorm((8,), **kw), torch.randn(2, 8)
+    if inst.get("input") == "float16":
+        x = x.to(torch.float16)
+        m.input_scale.fill_(0.0123); m.output_scale.fill_(0.0457)
     for scale0 in (None, 0.0):
         if scale0 is not None:
             m.input_scale.zero_(); m.output_scale.zero_()
@@ -532,7 +557,7 @@ def replay_frames(model, seed, inst):
         sd1 = m.state_dict()
         for k, v in sd0.items():
             w = sd1[k]
-            if isinstance(v, torch.Tensor) and type(v) is torch.Tensor and not torch.equal(v, w, ) and not (torch.isnan(v).all() and torch.isnan(w).all()):
+            if isinstance(v, torch.Tensor) and type(v) is torch.Tensor and (v.dtype != w.dtype or not torch.equal(v, w)) and not (torch.isnan(v).all() and torch.isnan(w).all()):
                 return {"what": f"forward changed '{k}'", "before": v.flatten()[:4].tolist(), "after": w.flatten()[:4].tolist()}
     return None
 
